@@ -1,6 +1,12 @@
 HOOK_COMMITS = []
 NOT_APPLICABLE = {}
 CHECKS = {
+ "C11": {
+  "level": "fault_enumeration",
+  "technique": "runtime monitor with crash-point enumeration: every abort point k of every generated history x close variants; HDF5 open-object accounting, layout validator, live-vs-fresh differential, post-close getter sweep against an open twin",
+  "text": "For every generated history all prefixes ops[0:k] are executed and the workspace is then closed by an exception escaping `with Workspace`, a normal with-exit, explicit + double close, an exception escaping / normal exit of fetch_active_workspace(ws,'r+') entered from a closed or read-only workspace, or save_as. Afterwards h5py's open-object count must be back at the baseline, the file must pass the layout validator, a fresh Workspace must show exactly the live snapshot taken before the abort and the reference model of the prefix, every property getter of every previously obtained entity must either return what the open twin returns or raise Geoh5FileClosedError, fetch_children must raise it, and ws.open() must restore the same content. Exhaustive in k per history; histories are sampled.",
+  "note": "Process kills are out of scope by the property. Trusted: h5py.h5f.get_obj_count as the leak detector.",
+ },
  "C05": {
   "level": "exploration",
   "technique": "runtime monitor: removal histories with reference-drop + gc + listing schedule; clauses over live API, raw file and re-opened file; concatenated-store audit of the closed file",
